@@ -2,11 +2,11 @@ module verifharness
 
 go 1.19
 
-require go.pennock.tech/tabular v0.0.0
-
 require (
-	github.com/mattn/go-runewidth v0.0.14 // indirect
-	github.com/rivo/uniseg v0.4.4 // indirect
+	github.com/mattn/go-runewidth v0.0.14
+	go.pennock.tech/tabular v0.0.0
 )
+
+require github.com/rivo/uniseg v0.4.4 // indirect
 
 replace go.pennock.tech/tabular => /repo
